@@ -249,6 +249,7 @@ def run(ctx):
     guarded_overload_does_not_end_the_dispatch(ctx)
     temporary_argument_tuples_are_released(ctx)
     collapsed_overload_sets_keep_every_overload(ctx)
+    fetched_elements_are_released(ctx)
 
 
 def _canon_arm(db, f, stmts, label):
@@ -737,3 +738,74 @@ def collapsed_overload_sets_keep_every_overload(ctx):
                "the kept entry receives the overloads of the first erased entry on every path to the erase" if ok else
                "the lower-count sets are erased without their overloads being copied into the kept set on every path")
     ctx.floor("R02.13", "range erases of the overload map", n, 1)
+
+
+RELEASERS = ("Py_DECREF", "Py_XDECREF", "_Py_DECREF", "_Py_XDECREF", "Py_CLEAR", "Py_DecRef")
+STEALERS = ("PyTuple_SET_ITEM", "PyTuple_SetItem", "PyList_SET_ITEM", "PyList_SetItem", "PyModule_AddObject")
+
+
+def fetched_elements_are_released(ctx):
+    """R02.14: the property wrappers of the runtime (py_wrappers.cxx) reach the C++ container through function pointers:
+    `_getitem_func(self, i)` returns a NEW reference, as sq_item does - for a wrapped C++ value, the only reference to a
+    freshly made wrapper object.  A local that receives it must, on every path on which it is not null, be returned,
+    handed to a function that steals it, or released before the function returns or the loop fetches the next one.
+    (F-C02c: `x in prop`, prop.count(), prop.index(), prop.remove() compared the element and dropped the reference;
+    150 queries leaked 350 C++ objects.)"""
+    db = ctx.db
+    ctx.rule("R02.14", "in py_wrappers.cxx a local initialised from a `_getitem_func(...)` call is returned, stolen or DECREF'd on every non-null path to a return or to the next fetch")
+    n = 0
+    for f in db.functions:
+        if not f.file.endswith("py_wrappers.cxx"):
+            continue
+        cfg = f.cfg
+        for y in f.walk():
+            if y.get("k") != "decls":
+                continue
+            for dd in y["d"]:
+                init = strip_casts(peel(dd.get("init"))) if dd.get("init") is not None else None
+                if not (init is not None and init.get("k") == "call" and init.get("fe") is not None and
+                        (field_of(strip_casts(peel(init["fe"]))) or "").endswith("_getitem_func")):
+                    continue
+                n += 1
+                d = dd["d"]
+                loc0 = cfg.locate(init) or cfg.locate(y)
+                if loc0 is None:
+                    ctx.ob("R02.14", "%s|%s|released" % (f.name, dd.get("n")), False, f.loc(y), "the fetch was not located in the CFG")
+                    continue
+                # statements that dispose of the reference
+                disp = []
+                for z in f.walk():
+                    if z.get("k") == "call" and (callee_short(z) in RELEASERS or callee_short(z) in STEALERS) and any((local_ref(strip_casts(peel(a))) or {}).get("d") == d for a in z.get("a", [])):
+                        disp.append(z)
+                    if z.get("k") == "ret" and z.get("e") is not None and any(w.get("k") == "ref" and w.get("d") == d for w in walk(z["e"])):
+                        disp.append(z)
+                    if z.get("k") == "call" and callee_short(z) in ("Py_BuildValue",) and False:
+                        disp.append(z)
+                disp_locs = [cfg.locate(z) for z in disp if cfg.locate(z) is not None]
+                null_edges = G.edges_where(f, G.local_is_null(d, null=True)) + G.edges_where(f, lambda atom, truth, d=d: (not truth) and (local_ref(atom) or {}).get("d") == d)
+                # straight-line disposal in the fetch's own block
+                if any(b == loc0[0] and i > loc0[1] for b, i in disp_locs):
+                    ctx.ob("R02.14", "%s|%s|released" % (f.name, dd.get("n")), True, f.loc(y), "disposed of in the same basic block as the fetch")
+                    continue
+                cut_blocks = {b for b, i in disp_locs}
+                reach = cfg.reachable(start=loc0[0], cut_edges=null_edges, cut_blocks=cut_blocks - {loc0[0]})
+                rets = [z for z in f.walk() if z.get("k") == "ret"]
+                bad = None
+                for r in rets:
+                    lr = cfg.locate(r)
+                    if lr is not None and lr[0] in reach and lr[0] not in cut_blocks and not (lr[0] == loc0[0] and lr[1] < loc0[1]):
+                        bad = r
+                        break
+                # next iteration: the fetch block reachable again from its successors without disposal
+                if bad is None:
+                    for idx, s_ in enumerate(cfg.blocks[loc0[0]].succs):
+                        if s_ is None or (loc0[0], idx) in set(null_edges):
+                            continue
+                        again = cfg.reachable(start=s_, cut_edges=null_edges, cut_blocks=cut_blocks - {loc0[0]})
+                        if loc0[0] in again and loc0[0] not in cut_blocks:
+                            bad = y
+                            break
+                ctx.ob("R02.14", "%s|%s|released" % (f.name, dd.get("n")), bad is None, f.loc(bad) if bad is not None else f.loc(y),
+                       "the new reference is returned, stolen or released on every non-null path" if bad is None else
+                       "the new reference in `%s` can reach %s without having been released" % (dd.get("n"), "a return" if bad is not y else "the next fetch"))
+    ctx.floor("R02.14", "locals holding a fetched element", n, 10)
